@@ -11,6 +11,7 @@
   construction), `depth` (stack frames of the multi-frame reader).
 -/
 import CedarProofs.DecodeText
+import CedarProofs.DecodeNoEnd
 
 namespace Cedar.C13
 
@@ -114,6 +115,52 @@ theorem linear_framing (encOn : Bool) (w : Bytes) (fuel : Nat) :
   have h4 := fb.alloc
   simp only [Nat.mul_zero, Nat.zero_add] at h1 h2 h3 h4
   exact ⟨h1, h2, da, h3, h4, by simpa using db⟩
+
+/-- **total, the frame reader without end flag and its callers** — `stream.ReceiveFrame`,
+    `Stream.GetSecret` (key or no key) and `Stream.GetFile` end in a value or an error for every
+    wire byte string: a size frame of any length and any signed value, chunk frames of any sizes,
+    any end marker. -/
+theorem total_framing_noend (key encOn : Bool) (w : Bytes) (m : WMeter) :
+    (recvFrameNE encOn w m).1 ≠ .error .panic ∧ (getSecretW key encOn w m).1 ≠ .error .panic ∧
+    (getFile encOn w m).1 ≠ .error .panic :=
+  ⟨(recvFrameNE_facts encOn w m (recvFrameNE encOn w m).1 (recvFrameNE encOn w m).2 rfl).np,
+   (getSecretW_facts key encOn w m (getSecretW key encOn w m).1 (getSecretW key encOn w m).2 rfl).np,
+   (getFile_facts encOn w m (getFile encOn w m).1 (getFile encOn w m).2 rfl).1.np⟩
+
+/-- **a header announcing more than `MaxMessageSize` is refused before any buffer is sized from
+    it** — by both frame readers, with not a byte allocated (this is what keeps a 5-byte header
+    from costing 4 GiB through `GetSecret` / `GetFile` / `ReadFrame`). -/
+theorem oversize_header_refused (encOn : Bool) (w : Bytes) (m : WMeter)
+    (h5 : Decode.headerSize ≤ w.length) (hbig : beVal ((w.drop 1).take 4) > Decode.maxMessageSize) :
+    recvFrameNE encOn w m = (.error .tooLarge, { m with frames := m.frames + 1 }) ∧
+    recvFrame encOn w m = (.error .tooLarge, { m with frames := m.frames + 1 }) := by
+  have h : ¬ (!lenGe w Decode.headerSize) = true := by
+    rw [(lenGe_iff w Decode.headerSize).mpr h5]; decide
+  constructor
+  · unfold recvFrameNE; rw [if_neg h]; simp only; rw [if_pos hbig]
+  · unfold recvFrame; rw [if_neg h]; simp only; rw [if_pos hbig]
+
+/-- **linear, the frame reader without end flag and its callers** — reading a secret or a whole
+    file off `w` parses at most `|w|/5 + 1` headers and allocates at most `|w|` plus ONE maximal
+    frame (only the last, failing read can have sized its buffer from a header whose payload
+    never came), uses no recursion; and `GetFile` writes no more bytes to the file than the wire
+    delivered, whatever file size the peer announced. -/
+theorem linear_framing_noend (key encOn : Bool) (w : Bytes) :
+    let a := (recvFrameNE encOn w {}).2
+    let b := (getSecretW key encOn w {}).2
+    let c := (getFile encOn w {}).2
+    (Decode.headerSize * a.frames ≤ w.length + Decode.headerSize ∧ a.alloc ≤ w.length + Decode.maxMessageSize ∧ a.depth = 0) ∧
+    (Decode.headerSize * b.frames ≤ w.length + Decode.headerSize ∧ b.alloc ≤ w.length + Decode.maxMessageSize ∧ b.depth = 0) ∧
+    (Decode.headerSize * c.frames ≤ w.length + Decode.headerSize ∧ c.alloc ≤ w.length + Decode.maxMessageSize ∧ c.depth = 0) ∧
+    ∀ t rest, (getFile encOn w {}).1 = .ok (t, rest) → t + rest.length ≤ w.length := by
+  have fa := recvFrameNE_facts encOn w {} (recvFrameNE encOn w {}).1 (recvFrameNE encOn w {}).2 rfl
+  have fb := getSecretW_facts key encOn w {} (getSecretW key encOn w {}).1 (getSecretW key encOn w {}).2 rfl
+  obtain ⟨fc, hw⟩ := getFile_facts encOn w {} (getFile encOn w {}).1 (getFile encOn w {}).2 rfl
+  have h1 := fa.frames; have h2 := fa.alloc
+  have h3 := fb.frames; have h4 := fb.alloc
+  have h5 := fc.frames; have h6 := fc.alloc
+  simp only [Nat.mul_zero, Nat.zero_add] at h1 h2 h3 h4 h5 h6
+  exact ⟨⟨h1, h2, fa.depth⟩, ⟨h3, h4, fb.depth⟩, ⟨h5, h6, fc.depth⟩, hw⟩
 
 /-- the shared-port header reader allocates at most 64 bytes -/
 theorem passsock_bounded (w : Bytes) : (readPassSock w).2 ≤ 64 := (readPassSock_facts w).2
@@ -243,6 +290,14 @@ theorem legacy_cap_fails : ¬ legacy_cap_statement := by
 
 /-- now the same secret is refused once the budget is used up -/
 example : isErr .sizeExceeded (adSecret 4 4 (getString markerMsg).2).1 = true := by decide
+
+/-- non-vacuity: a 3-byte file in two chunks is received (size, "ab", "c", 666), 3 bytes written;
+    a header announcing 2^20+1 bytes is refused with nothing allocated -/
+def fileWire : Bytes := [1,0,0,0,8, 0,0,0,0,0,0,0,3, 1,0,0,0,2, 97,98, 1,0,0,0,1, 99, 1,0,0,0,4, 0,0,2,154]
+example : (match (getFile false fileWire {}).1 with | .ok (3, []) => true | _ => false) = true ∧
+    (getFile false fileWire {}).2.alloc = 15 := by decide
+example : isErr .tooLarge (getSecretW false false [1, 0, 16, 0, 1] {}).1 = true ∧
+    (getSecretW false false [1, 0, 16, 0, 1] {}).2.alloc = 0 := by decide
 
 /-! Non-vacuity: a valid ad with a secret, read by every receiver in both modes. -/
 def demoPlain : St := { d := { src := [(be64 2 ++ [65, 61, 49, 0, 90, 75, 77, 0, 66, 61, 50, 0, 77, 0, 0], true)] } }
